@@ -32,6 +32,17 @@ theorem localKind_cases {d : BDir} (h : localKind d = true) :
 theorem localKind_skip {d : BDir} (h : localKind d = true) : d.kind ≠ .URL ∧ isHTTP d.kind = false := by
   rcases localKind_cases h with h | h | h | h | h | h | h | h <;> rw [h] <;> exact ⟨by decide, by decide⟩
 
+/-- the same with Tags -/
+def localKindT (d : BDir) : Bool := localKind d || d.kind == .Tags
+
+theorem localKindT_cases {d : BDir} (h : localKindT d = true) : localKind d = true ∨ d.kind = .Tags := by
+  simpa [localKindT] using h
+
+theorem localKindT_skip {d : BDir} (h : localKindT d = true) : d.kind ≠ .URL ∧ isHTTP d.kind = false := by
+  rcases localKindT_cases h with h | h
+  · exact localKind_skip h
+  · rw [h]; exact ⟨by decide, by decide⟩
+
 theorem httpIdOf_skip (d : BDir) (rest : List BDir) (h1 : d.kind ≠ .URL) (h2 : isHTTP d.kind = false) :
     httpIdOf (d :: rest) = httpIdOf rest := by
   have e1 : pathChain (d :: rest) = pathChain rest := by
@@ -45,7 +56,7 @@ theorem addDescription_local (d : BDir) (anc : List Up) (i : IId)
     (hi : ∀ j, httpIdOf (d :: anc.map (·.d)) = .ok j → j = i)
     (hp : ∀ p r, anc = p :: r → p.d.kind ≠ .Info ∧ p.d.kind ≠ .Method ∧ p.d.kind ≠ .TAG) :
     LocalAt i (addDescription d anc) := by
-  intro c c' hg
+  intro c c' hg _
   unfold addDescription
   cases anc with
   | nil =>
@@ -63,44 +74,48 @@ theorem addDescription_local (d : BDir) (anc : List Up) (i : IId)
     | ok j => cases hi j hh; local_tac hh hg
 
 theorem addDirective_local (banned : List Kind) (d : BDir) (kids : List BDir) (anc : List Up) (i : IId)
-    (hl : localKind d = true) (hi : httpIdOf (anc.map (·.d)) = .ok i)
-    (hp : ∀ p r, anc = p :: r → localKind p.d = true ∨ isHTTP p.d.kind = true) :
+    (hl : localKindT d = true) (hi : httpIdOf (anc.map (·.d)) = .ok i)
+    (hp : ∀ p r, anc = p :: r → localKindT p.d = true ∨ isHTTP p.d.kind = true) :
     LocalAt i (addDirective banned d kids anc) := by
   have hi' : ∀ j, httpIdOf (d :: anc.map (·.d)) = .ok j → j = i := by
     intro j hj
-    rw [httpIdOf_skip d _ (localKind_skip hl).1 (localKind_skip hl).2, hi] at hj
+    rw [httpIdOf_skip d _ (localKindT_skip hl).1 (localKindT_skip hl).2, hi] at hj
     cases hj; rfl
   by_cases hb : banned.contains d.kind = true
   · exact LocalAt.congr (LocalAt.err ⟨d.id, .notAllowed⟩) (fun c => by unfold addDirective; rw [if_pos hb]; rfl)
   · have hpar : ∀ p r, anc = p :: r → p.d.kind ≠ .Info ∧ p.d.kind ≠ .Method ∧ p.d.kind ≠ .TAG := by
       intro p r e
       rcases hp p r e with h | h
-      · rcases localKind_cases h with h | h | h | h | h | h | h | h <;> rw [h] <;> exact ⟨by decide, by decide, by decide⟩
+      · rcases localKindT_cases h with h | h
+        · rcases localKind_cases h with h | h | h | h | h | h | h | h <;> rw [h] <;> exact ⟨by decide, by decide, by decide⟩
+        · rw [h]; exact ⟨by decide, by decide, by decide⟩
       · refine ⟨?_, ?_, ?_⟩ <;> (intro e'; rw [e'] at h; exact absurd h (by decide))
-    rcases localKind_cases hl with h | h | h | h | h | h | h | h
-    · exact LocalAt.congr (addDescription_local d anc i hi' hpar) (fun c => by unfold addDirective; rw [if_neg hb, h])
-    · exact LocalAt.congr (addQuery_local d anc i hi') (fun c => by unfold addDirective; rw [if_neg hb, h])
-    · exact LocalAt.congr (addRequest_local d anc i hi') (fun c => by unfold addDirective; rw [if_neg hb, h])
-    · exact LocalAt.congr (addResponse_local d anc i hi') (fun c => by unfold addDirective; rw [if_neg hb, h])
-    · exact LocalAt.congr (addHeaders_local d anc i hi') (fun c => by unfold addDirective; rw [if_neg hb, h])
-    · exact LocalAt.congr (addBody_local d anc i hi') (fun c => by unfold addDirective; rw [if_neg hb, h])
-    · exact LocalAt.congr LocalAt.ok (fun c => by unfold addDirective; rw [if_neg hb, h])
-    · exact LocalAt.congr LocalAt.ok (fun c => by unfold addDirective; rw [if_neg hb, h])
+    rcases localKindT_cases hl with hl | h
+    · rcases localKind_cases hl with h | h | h | h | h | h | h | h
+      · exact LocalAt.congr (addDescription_local d anc i hi' hpar) (fun c => by unfold addDirective; rw [if_neg hb, h])
+      · exact LocalAt.congr (addQuery_local d anc i hi') (fun c => by unfold addDirective; rw [if_neg hb, h])
+      · exact LocalAt.congr (addRequest_local d anc i hi') (fun c => by unfold addDirective; rw [if_neg hb, h])
+      · exact LocalAt.congr (addResponse_local d anc i hi') (fun c => by unfold addDirective; rw [if_neg hb, h])
+      · exact LocalAt.congr (addHeaders_local d anc i hi') (fun c => by unfold addDirective; rw [if_neg hb, h])
+      · exact LocalAt.congr (addBody_local d anc i hi') (fun c => by unfold addDirective; rw [if_neg hb, h])
+      · exact LocalAt.congr LocalAt.ok (fun c => by unfold addDirective; rw [if_neg hb, h])
+      · exact LocalAt.congr LocalAt.ok (fun c => by unfold addDirective; rw [if_neg hb, h])
+    · exact LocalAt.congr (addTags_local d i) (fun c => by unfold addDirective; rw [if_neg hb, h])
 
 mutual
   /-- every directive below a method directive works on the interaction of that method -/
-  theorem branch_local (banned : List Kind) (i : IId) : ∀ (t : BTree) (anc : List Up), allT localKind t = true →
-      httpIdOf (anc.map (·.d)) = .ok i → (∀ p r, anc = p :: r → localKind p.d = true ∨ isHTTP p.d.kind = true) →
+  theorem branch_local (banned : List Kind) (i : IId) : ∀ (t : BTree) (anc : List Up), allT localKindT t = true →
+      httpIdOf (anc.map (·.d)) = .ok i → (∀ p r, anc = p :: r → localKindT p.d = true ∨ isHTTP p.d.kind = true) →
       LocalAt i (addBranch banned anc t)
     | .node d kids, anc, ht, hi, hp => by
       rw [allT, Bool.and_eq_true] at ht
       refine LocalAt.congr (LocalAt.bind (addDirective_local banned d (kids.map BTree.dir) anc i ht.1 hi hp)
         (forest_local banned i kids (⟨d, kids.map BTree.dir⟩ :: anc) ht.2 ?_ ?_)) (fun c => addBranch_eq banned anc d kids c)
       · show httpIdOf (d :: anc.map (·.d)) = .ok i
-        rw [httpIdOf_skip d _ (localKind_skip ht.1).1 (localKind_skip ht.1).2]; exact hi
+        rw [httpIdOf_skip d _ (localKindT_skip ht.1).1 (localKindT_skip ht.1).2]; exact hi
       · intro p r e; cases e; exact Or.inl ht.1
-  theorem forest_local (banned : List Kind) (i : IId) : ∀ (ts : List BTree) (anc : List Up), allF localKind ts = true →
-      httpIdOf (anc.map (·.d)) = .ok i → (∀ p r, anc = p :: r → localKind p.d = true ∨ isHTTP p.d.kind = true) →
+  theorem forest_local (banned : List Kind) (i : IId) : ∀ (ts : List BTree) (anc : List Up), allF localKindT ts = true →
+      httpIdOf (anc.map (·.d)) = .ok i → (∀ p r, anc = p :: r → localKindT p.d = true ∨ isHTTP p.d.kind = true) →
       LocalAt i (addForest banned anc ts)
     | [], anc, _, _, _ => LocalAt.congr LocalAt.ok (fun c => addForest_nil banned anc c)
     | t :: r, anc, ht, hi, hp => by
@@ -291,15 +306,16 @@ theorem local_creator_comm {iA : IId} {KA M : Cat → R Cat} (hK : LocalAt iA KA
     (hM1 : ∀ (c : Cat) (f : InterM → InterM), Keeps f → c.hasInter iA = true →
       M (c.updInter iA f) = rmap (·.updInter iA f) (M c))
     (hM2 : ∀ c c2, M c = .ok c2 → c.hasInter iA = true → c2.getInter iA = c.getInter iA)
+    (hM3 : ∀ c c2, M c = .ok c2 → DeclEq c c2)
     (c : Cat) (hc : c.hasInter iA = true) : REq (KA c >>= M) (M c >>= KA) := by
   cases hm : M c with
   | error e =>
-    rcases hK c c rfl with ⟨e1, _, h1, _⟩ | ⟨f, hf, h1, _⟩
+    rcases hK c c rfl (DeclEq.refl c) with ⟨e1, _, h1, _⟩ | ⟨f, hf, h1, _⟩
     · rw [h1]; trivial
     · rw [h1, ok_bind, hM1 c f hf hc, hm]; trivial
   | ok c2 =>
     rw [ok_bind]
-    rcases hK c c2 (hM2 c c2 hm hc) with ⟨e1, e2, h1, h2⟩ | ⟨f, hf, h1, h2⟩
+    rcases hK c c2 (hM2 c c2 hm hc) (hM3 c c2 hm) with ⟨e1, e2, h1, h2⟩ | ⟨f, hf, h1, h2⟩
     · rw [h1, h2]; trivial
     · rw [h1, h2, ok_bind, hM1 c f hf hc, hm]
       exact REq.refl _
@@ -307,19 +323,19 @@ theorem local_creator_comm {iA : IId} {KA M : Cat → R Cat} (hK : LocalAt iA KA
 /-- two operations on different interactions -/
 theorem local_local_comm {iA iB : IId} {KA KB : Cat → R Cat} (hA : LocalAt iA KA) (hB : LocalAt iB KB)
     (hne : iA ≠ iB) (c : Cat) : REq (KA c >>= KB) (KB c >>= KA) := by
-  rcases hA c c rfl with ⟨e1, _, h1, _⟩ | ⟨fA, hfA, h1, _⟩
+  rcases hA c c rfl (DeclEq.refl c) with ⟨e1, _, h1, _⟩ | ⟨fA, hfA, h1, _⟩
   · rw [h1]
-    rcases hB c c rfl with ⟨e2, _, h2, _⟩ | ⟨fB, hfB, h2, _⟩
+    rcases hB c c rfl (DeclEq.refl c) with ⟨e2, _, h2, _⟩ | ⟨fB, hfB, h2, _⟩
     · rw [h2]; trivial
     · rw [h2, ok_bind]
-      rcases hA c (c.updInter iB fB) (getInter_updInter_other c (Ne.symm hne) hfB) with ⟨_, e3, h3, h4⟩ | ⟨f, _, h3, _⟩
+      rcases hA c (c.updInter iB fB) (getInter_updInter_other c (Ne.symm hne) hfB) (DeclEq.refl c) with ⟨_, e3, h3, h4⟩ | ⟨f, _, h3, _⟩
       · rw [h4]; trivial
       · rw [h1] at h3; cases h3
   · rw [h1, ok_bind]
-    rcases hB c (c.updInter iA fA) (getInter_updInter_other c hne hfA) with ⟨e2, e3, h2, h3⟩ | ⟨fB, hfB, h2, h3⟩
+    rcases hB c (c.updInter iA fA) (getInter_updInter_other c hne hfA) (DeclEq.refl c) with ⟨e2, e3, h2, h3⟩ | ⟨fB, hfB, h2, h3⟩
     · rw [h2, h3]; trivial
     · rw [h2, h3, ok_bind]
-      rcases hA c (c.updInter iB fB) (getInter_updInter_other c (Ne.symm hne) hfB) with ⟨_, e3, h4, _⟩ | ⟨f, hf, h4, h5⟩
+      rcases hA c (c.updInter iB fB) (getInter_updInter_other c (Ne.symm hne) hfB) (DeclEq.refl c) with ⟨_, e3, h4, _⟩ | ⟨f, hf, h4, h5⟩
       · rw [h1] at h4; cases h4
       · rw [h5]
         show _ = _
@@ -535,6 +551,7 @@ theorem chain_comm {iA iB : IId} {MA KA MB KB : Cat → R Cat} (hKA : LocalAt iA
     (hMB1 : ∀ (i : IId) (c : Cat) (f : InterM → InterM), Keeps f → c.hasInter i = true →
       MB (c.updInter i f) = rmap (·.updInter i f) (MB c))
     (hMB2 : ∀ (i : IId) c c2, MB c = .ok c2 → c.hasInter i = true → c2.getInter i = c.getInter i)
+    (hMA4 : ∀ c c2, MA c = .ok c2 → DeclEq c c2) (hMB4 : ∀ c c2, MB c = .ok c2 → DeclEq c c2)
     (hMA3 : ∀ c c2, MA c = .ok c2 → c2.hasInter iA = true)
     (hMB3 : ∀ c c2, MB c = .ok c2 → c2.hasInter iB = true ∧ c.hasInter iB = false)
     (x : Cat) (hcomm : RRel Sim (MA x >>= MB) (MB x >>= MA)) :
@@ -547,7 +564,7 @@ theorem chain_comm {iA iB : IId} {MA KA MB KB : Cat → R Cat} (hKA : LocalAt iA
     have hc1 : c1.hasInter iA = true := hMA3 x c1 h1
     have s1 : REq (KA c1 >>= fun c => MB c >>= KB) ((MB c1 >>= KA) >>= KB) := by
       rw [← bind_bind]
-      exact (local_creator_comm hKA (hMB1 iA) (hMB2 iA) c1 hc1).bind_right KB
+      exact (local_creator_comm hKA (hMB1 iA) (hMB2 iA) hMB4 c1 hc1).bind_right KB
     have s2 : REq ((MB c1 >>= KA) >>= KB) (MB c1 >>= fun c => KB c >>= KA) := by
       rw [bind_bind]
       apply REq.bind_left
@@ -568,7 +585,7 @@ theorem chain_comm {iA iB : IId} {MA KA MB KB : Cat → R Cat} (hKA : LocalAt iA
     have hc1 : c1.hasInter iB = true := (hMB3 x c1 h1).1
     have s1 : REq (KB c1 >>= fun c => MA c >>= KA) ((MA c1 >>= KB) >>= KA) := by
       rw [← bind_bind]
-      exact (local_creator_comm hKB (hMA1 iB) (hMA2 iB) c1 hc1).bind_right KA
+      exact (local_creator_comm hKB (hMA1 iB) (hMA2 iB) hMA4 c1 hc1).bind_right KA
     rw [bind_bind] at s1
     exact s1
   refine rrel_compose hL ?_ hR
@@ -578,6 +595,32 @@ theorem methStep_get {d : BDir} {pp : List (Bytes × Bytes)} {i : IId} (j : IId)
     (h : methStep d pp i c = .ok c2) (hj : c.hasInter j = true) : c2.getInter j = c.getInter j := by
   obtain ⟨s, _, _, rfl⟩ := methStep_ok h
   exact eff_getInter d i _ j hj
+
+theorem attach_declared (i : IId) (t : TagM) : (attach i t).declared = t.declared := by
+  unfold attach; split <;> rfl
+
+theorem updAt_declared (i : IId) (t : TagM) : (updAt i t).declared = t.declared := by
+  unfold updAt; split
+  · exact attach_declared i t
+  · rfl
+
+theorem eff_decl (d : BDir) (i : IId) (c : Cat) : DeclEq c (eff d i c) := by
+  intro n
+  unfold declOf Cat.getTag eff
+  simp only []
+  rw [find_effTags]
+  unfold look1
+  cases c.tags.find? (fun x => x.name == n) with
+  | some t => simp [updAt_declared]
+  | none =>
+    by_cases e : autoName i = n
+    · simp [e, updAt_declared, autoTag]
+    · simp [e]
+
+theorem methStep_decl {d : BDir} {pp : List (Bytes × Bytes)} {i : IId} {c c2 : Cat}
+    (h : methStep d pp i c = .ok c2) : DeclEq c c2 := by
+  obtain ⟨s, _, _, rfl⟩ := methStep_ok h
+  exact eff_decl d i { c with similar := s }
 
 theorem methStep_has {d : BDir} {pp : List (Bytes × Bytes)} {i : IId} {c c2 : Cat}
     (h : methStep d pp i c = .ok c2) : c2.hasInter i = true ∧ c.hasInter i = false := by
@@ -605,15 +648,16 @@ theorem comm_methods (banned : List Kind) (a b : BTree) (ha : isMethodBlock a = 
   · apply fails_comm_sim'
     intro c; rw [eB]; obtain ⟨e, he⟩ := hf c; exact ⟨e, by simp only [he]; rfl⟩
   have hKA : LocalAt iA (addForest banned [⟨dA, kA.map BTree.dir⟩] kA) :=
-    forest_local banned iA kA _ ha.2 hiA (by intro p r e; cases e; exact Or.inr ha.1)
+    forest_local banned iA kA _ (allF_mono (fun d h => by simp [localKindT, h]) kA ha.2) hiA (by intro p r e; cases e; exact Or.inr ha.1)
   have hKB : LocalAt iB (addForest banned [⟨dB, kB.map BTree.dir⟩] kB) :=
-    forest_local banned iB kB _ hb.2 hiB (by intro p r e; cases e; exact Or.inr hb.1)
+    forest_local banned iB kB _ (allF_mono (fun d h => by simp [localKindT, h]) kB hb.2) hiB (by intro p r e; cases e; exact Or.inr hb.1)
   have eA' : addDirective banned dA (kA.map BTree.dir) [] = methStep dA ppA iA := funext hA
   have eB' : addDirective banned dB (kB.map BTree.dir) [] = methStep dB ppB iB := funext hB
   rw [eA, eB, eA', eB']
   exact chain_comm hKA hKB
     (fun i c f hf hi => methStep_upd dA ppA iA c i hf hi) (fun i c c2 h hi => methStep_get i h hi)
     (fun i c f hf hi => methStep_upd dB ppB iB c i hf hi) (fun i c c2 h hi => methStep_get i h hi)
+    (fun c c2 h => methStep_decl h) (fun c c2 h => methStep_decl h)
     (fun c c2 h => (methStep_has h).1) (fun c c2 h => methStep_has h) x
     (methStep_comm dA ppA iA dB ppB iB x hx)
 
